@@ -253,6 +253,12 @@ def gen(tier, rng):
         else:
             c.update({"us": st if pos else None, "pm": None if pos else st})
         yield c
+    # library-level middlewares (not block middlewares) that act on ANY library, also an empty one: every requested
+    # middleware runs exactly once, in order, whatever the document (python-only: the check is made on the real code)
+    for doc in range(len(DOCS)):
+        for pos in ("ps", "am", "us", "pm"):
+            for tags in (["1"], ["1", "2"], ["2", "1", "3"]):
+                yield {"op": "libmw", "doc": doc, "pos": pos, "tags": tags}
     for doc in (0, 1):
         for encn in ("utf-8", "latin-1", "gbk", "utf-16"):
             for target in ("path", "fileobj"):
@@ -278,6 +284,8 @@ def request(case):
         else:
             start = _split_blocks(text)
         return rq("parsestack", B.enc_blocks(start), [], _stack_wire(case["ps"]), _stack_wire(case["am"]))
+    if case["op"] == "libmw":
+        return None
     if case["op"] == "write":
         start = bibtexparser.parse_string(text).blocks
         return rq("unparsestack", B.enc_blocks(start), [], _stack_wire(case["us"]), _stack_wire(case["pm"]))
@@ -303,9 +311,50 @@ class _Capture(Exception):
     pass
 
 
+def _libmw_check(case):
+    """every requested library-level middleware runs exactly once, in the requested order, on every document"""
+    import bibtexparser
+    from bibtexparser import model as M
+    from bibtexparser.library import Library
+    from bibtexparser.middlewares.middleware import LibraryMiddleware
+    calls = []
+
+    class Mark(LibraryMiddleware):
+        def __init__(self, tag):
+            super().__init__(allow_inplace_modification=True)
+            self.tag = tag
+
+        def transform(self, library):
+            calls.append(self.tag)
+            return Library(list(library.blocks) + [M.ExplicitComment("ran-" + self.tag)])
+
+    text, tags, pos = DOCS[case["doc"]], case["tags"], case["pos"]
+    ms = [Mark(t) for t in tags]
+    if pos in ("ps", "am"):
+        lib = bibtexparser.parse_string(text, **{"parse_stack" if pos == "ps" else "append_middleware": ms})
+        marks = [b.comment for b in lib.blocks if isinstance(b, M.ExplicitComment) and b.comment.startswith("ran-")]
+        if calls != tags or marks != ["ran-" + t for t in tags]:
+            return "parse_string(%s=%r) on document %r: middlewares run %r, marker blocks %r" % (pos, tags, text[:30], calls, marks)
+        if len(lib.blocks) != len(bibtexparser.parse_string(text, parse_stack=[] if pos == "ps" else None).blocks) + len(tags):
+            return "parse_string(%s=...) on document %r: wrong number of blocks" % (pos, text[:30])
+    else:
+        out = bibtexparser.write_string(bibtexparser.parse_string(text), **{"unparse_stack" if pos == "us" else "prepend_middleware": ms})
+        if calls != tags or [out.find("@comment{ran-%s}" % t) >= 0 for t in tags] != [True] * len(tags):
+            return "write_string(%s=%r) on document %r: middlewares run %r, text %r" % (pos, tags, text[:30], calls, out[-80:])
+        order = [out.find("@comment{ran-%s}" % t) for t in tags]
+        if order != sorted(order):
+            return "write_string(%s=%r): markers out of order in %r" % (pos, tags, out[-80:])
+    return None
+
+
 def impl(case):
     import bibtexparser
     from bibtexparser import writer
+    if case["op"] == "libmw":
+        f = _libmw_check(case)
+        if f:
+            raise AssertionError(f)
+        return "(ok libmw)"
     text = DOCS[case["doc"]]
     if case["op"] == "parse":
         ct = case.get("ct", "list")
@@ -410,6 +459,8 @@ def oracle(case):
         except AssertionError as e:
             return str(e)
         return None
+    if case["op"] == "libmw":
+        return _libmw_check(case)
     text = DOCS[case["doc"]]
     if case["op"] == "parse":
         ps, am = case["ps"], case["am"]
@@ -480,7 +531,7 @@ def describe(cases, outs):
 
 
 def nontrivial(case, out):
-    return bool(case.get("ps") or case.get("am") or case.get("us") or case.get("pm")) or case["op"] == "file"
+    return bool(case.get("ps") or case.get("am") or case.get("us") or case.get("pm")) or case["op"] in ("file", "libmw")
 
 
 PY_ONLY_MAY_RAISE = False
